@@ -42,6 +42,8 @@ package newick
 //@     decreases remaining(s.r)
 
 //@ func (*io/newick.Scanner).scanIdent
+//@   flag countcalls
+//@   ensures [every_rune_consumed_goes_into_the_literal_but_a_final_nul] old(remaining(s.r)) > 0 ==> ghost(ncalls_WriteRune) - old(ghost(ncalls_WriteRune)) <= old(remaining(s.r)) - remaining(s.r) && ghost(ncalls_WriteRune) - old(ghost(ncalls_WriteRune)) >= old(remaining(s.r)) - remaining(s.r) - 1
 //@   requires s != nil && s.r != nil
 //@   allocates iface, bytes.Buffer
 //@   assigns stream(s.r)
@@ -51,6 +53,7 @@ package newick
 //@   loop 1
 //@     assigns stream(s.r), content(buf)
 //@     invariant [progress_so_far] remaining(s.r) >= 0 && remaining(s.r) <= old(remaining(s.r)) && (old(remaining(s.r)) > 0 ==> remaining(s.r) < old(remaining(s.r)))
+//@     invariant [one_rune_written_per_rune_consumed] ghost(ncalls_WriteRune) == old(ghost(ncalls_WriteRune)) + (old(remaining(s.r)) > 0 ? old(remaining(s.r)) - remaining(s.r) : 1)
 //@     decreases remaining(s.r)
 
 //@ func (*io/newick.Scanner).Scan
